@@ -1021,4 +1021,19 @@ theorem C04_propagator_padded_fails :
         (fun j => if j = 1 then 1 else 0) 0 ≠ (fun j => if j = 1 then (1 : ℂ) else 0) 0 := by
   simp [propEval, dftInvCodedNd, dftFwdPad, dftAxes, padNd, slab, prodL, sumTo, dftEval.npow, Complex.ext_iff]
 
+
+/-- `XRayTransform3D.matrices_from_euler_angles` (assembly around scipy's rotation matrix `R`, a contract): with
+    `M = diag(1/det_spacing)·R[:2,:]·diag(voxel_spacing)` and `t = −M·(input_shape/2) + output_shape/2` the centre of the
+    volume is projected to the centre of the detector for EVERY rotation and spacing ("line up the centers"), and for the
+    identity rotation with unit spacings voxel coordinates are only translated. -/
+theorem C04_xray3d_euler_centre {F : Type} [Field F] (R : M F) (vs ds halfIn halfOut x : V F) (i : Nat) :
+    eulerProject R vs ds halfIn halfOut halfIn i = halfOut i
+    ∧ (i < 2 → eulerProject (fun a b => if a = b then (1 : F) else 0) (fun _ => 1) (fun _ => 1) halfIn halfOut x i
+        = x i - halfIn i + halfOut i) :=
+  ⟨euler_centre R vs ds halfIn halfOut i, euler_identity halfIn halfOut x i⟩
+
+example : eulerProject (α := ℚ) (fun a b => if a = b then 1 else 0) (fun _ => 1 / 2) (fun _ => 2) (fun _ => 1) (fun _ => 3)
+    (fun _ => 5) 0 = 4 := by
+  simp [eulerProject, eulerT, eulerM, sumTo]; norm_num
+
 end Scico.Props.C04
